@@ -62,6 +62,13 @@ partial def loop {σ : Type} (e : Engine σ) (h : IO.FS.Stream) (out : IO.FS.Str
   let line := stripNL line
   match line.splitOn "\t" with
   | case :: ops :: impl :: _ =>
+    -- the harness's hang watchdog (zz_verif_common_test.go, verifWatch): no record for its real-time limit
+    -- while a goroutine of the bubble is blocked, not durably, in SDK code.  No model has such a behaviour
+    -- (every operation of a model is one total step), so the record is a divergence and a violation.
+    if (words ops).head? == some "verif-hang" then
+      out.putStrLn s!"{case}\tD\tquiescent\tV\tthe implementation hung: after the operations of this record no goroutine could run and virtual time could not advance, because a goroutine is blocked in SDK code on a lock or channel that nothing will release ({impl})"
+      loop e h out s
+    else
     let (s', v) := e.step s (words ops) impl
     let base := if v.model == impl then s!"{case}\tA" else s!"{case}\tD\t{v.model}"
     let full := match v.violated with
